@@ -191,3 +191,71 @@ func VH_C04j_FromJulianDay() {
 	vAssert("fromjd-time", t.hour*3600+t.minute*60+t.second == sec%86400)
 	vReach("C04j")
 }
+
+// C04k: a civil date-time converts to a Julian Day and back without change at ONE-SECOND resolution: every
+// (y, m, d, h, mi, s), year symbolic.  The inexact float operations (s/60, /60, /24, the sums of magnitude 10^6, the
+// divisions by 36524.25 / 365.25 / 30.601) are over-approximated with a sound rounding-error bound (vApproxFloats);
+// int() and math.Round become integer variables constrained by that bound, so "unsat" holds for the real floats.
+func VH_C04k_SecondRoundTrip() {
+	y, m, d := vhDate("")
+	h, mi, s := vInt("h", 0, 23), vInt("mi", 0, 59), vInt("s", 0, 59)
+	sol := NewSolar(y, m, d, h, mi, s)
+	var t *Solar
+	vApproxFloats(func() {
+		vAssert("second-round-trip-no-panic", !vPanics(func() { t = NewSolarFromJulianDay(sol.GetJulianDay()) }))
+	})
+	vAssert("second-round-trip", t.year == y && t.month == m && t.day == d && t.hour == h && t.minute == mi && t.second == s)
+	vReach("C04k")
+}
+
+// C04l: EVERY float64 Julian Day value of the whole supported range (day numbers NLO..NHI at once, grid 1/D) converts to
+// a valid date-time of the expected civil day.  As C04j, but the day part is not tabulated per chunk: its divisions
+// are over-approximated with the rounding-error bound, so one query covers all day numbers.
+func VH_C04l_FromJulianDayAll() {
+	N := vInt("N", vParam("NLO"), vParam("NHI"))
+	D := vParam("D")
+	r := vInt("r", 0, D-1)
+	jd := float64(N) - 0.5 + float64(r)/float64(D)
+	var t *Solar
+	vApproxFloats(func() {
+		vAssert("fromjd-no-panic", !vPanics(func() { t = NewSolarFromJulianDay(jd) }))
+	})
+	vAssert("fromjd-valid", specValidYmd(t.year, t.month, t.day) && specValidHms(t.hour, t.minute, t.second))
+	sec := (2*r*86400 + D) / (2 * D)
+	T := specJDN(t.year, t.month, t.day)
+	vAssert("fromjd-day", (sec < 86400 && T == N) || (sec == 86400 && T == N+1))
+	vAssert("fromjd-time", t.hour*3600+t.minute*60+t.second == sec%86400)
+	vReach("C04l")
+}
+
+// tolerance of the two halves of the one-second round trip: 2^-28 day (about 0.3 ms)
+const vhJDTol = 4096
+
+// C04k-encode: GetJulianDay of EVERY valid date-time (year symbolic) is within 2^-28 day of JDN - 0.5 + seconds/86400.
+func VH_C04k_Encode() {
+	y, m, d := vhDate("")
+	h, mi, s := vInt("h", 0, 23), vInt("mi", 0, 59), vInt("s", 0, 59)
+	sol := NewSolar(y, m, d, h, mi, s)
+	vAssert("jdn-lemma", int(NewSolar(y, m, d, 0, 0, 0).GetJulianDay()+0.5) == specJDN(y, m, d))
+	var jd float64
+	vApproxFloats(func() { jd = sol.GetJulianDay() })
+	vAssert("encode-within-tolerance", vApxWithin(jd, (2*specJDN(y, m, d)-1)*43200+h*3600+mi*60+s, 86400, vhJDTol))
+	vReach("C04k-encode")
+}
+
+// C04k-decode: EVERY float64 within 2^-28 day of N - 0.5 + sec/86400 (day numbers NLO..NHI, every second) converts back to
+// exactly day N at exactly that second.  With C04k-encode and the injectivity of the day number (C04a) this is the
+// round trip "civil date-time -> Julian Day -> civil date-time" at one-second resolution for the whole range.
+func VH_C04k_Decode() {
+	N := vInt("N", vParam("NLO"), vParam("NHI"))
+	sec := vInt("sec", 0, 86399)
+	var t *Solar
+	vApproxFloats(func() {
+		jd := vApxFloat((2*N-1)*43200+sec, 86400, vhJDTol)
+		vAssert("decode-no-panic", !vPanics(func() { t = NewSolarFromJulianDay(jd) }))
+	})
+	vAssert("decode-valid", specValidYmd(t.year, t.month, t.day) && specValidHms(t.hour, t.minute, t.second))
+	vAssert("decode-time", t.hour*3600+t.minute*60+t.second == sec)
+	vAssert("decode-day", specJDN(t.year, t.month, t.day) == N)
+	vReach("C04k-decode")
+}
